@@ -80,7 +80,14 @@ def run_exe(exe, g, threads=1, sched=None, keyfile=None, timeout_ms=20000, extra
     if keyfile:
         args += ['-k', keyfile]
     if ranks == 1:
-        rc, o, e = pv.sh(args, env=env, timeout=timeout_ms / 1000.0 + 240)
+        import time
+        for attempt in range(6):
+            rc, o, e = pv.sh(args, env=env, timeout=timeout_ms / 1000.0 + 240)
+            # MPI_Init itself can fail on a heavily oversubscribed machine (before any PaRSEC code runs): retry, never a result
+            if rc != 0 and not o and 'MPI_Init' in e and 'error occurred' in e:
+                time.sleep(1 + attempt)
+                continue
+            break
         return rc, o, e
     outp = exe + '.out'
     xs = []
